@@ -210,7 +210,7 @@ def real_bank_oracle(ctx):
     n = ctx.scale(24, 400)
     rate = 8000
     banks = []
-    for _ in range(n):
+    for case_no in range(n):
         kind = r.choice(["gabor", "tri", "fbank", "gammatone"])
         scale = r.choice(["mel", "bark", "linear", "octave"])
         sc_arg = {"mel": "mel", "bark": "bark", "linear": dict(name="linear", low_hz=0.0), "octave": dict(name="octave", low_hz=40.0)}[scale]
@@ -263,13 +263,29 @@ def real_bank_oracle(ctx):
         x = np.random.RandomState(r.randrange(1 << 30)).randn(N).astype(fdt)
         x.setflags(write=False)
         chunks = random_chunking(r, N)
+        if case_no % 6 == 1:
+            # fixed shape of the reused-block feed: double precision, blocks a little longer than a frame
+            fdt, N = np.float64, 5 * L + 7
+            x = np.random.RandomState(r.randrange(1 << 30)).randn(N).astype(fdt)
+            x.setflags(write=False)
+            chunks = [L + 3] * (N // (L + 3)) + ([N % (L + 3)] if N % (L + 3) else [])
         case.update(N=N, chunks=chunks, L=L, S=S, dtype=np.dtype(fdt).name)
         ctx.case(case, kind="real:" + which + ":" + kind)
         try:
             full = comp.compute_full(x)
             parts, off = [], 0
+            # how the chunks reach the computer: slices of the signal, or one block array that the caller refills for
+            # every chunk (an audio callback) and overwrites as soon as the call returns
+            reuse = case_no % 3 == 1
+            case["feed"] = "reused_block" if reuse else "slices"
+            blk = np.empty(max(chunks + [1]), dtype=fdt)
             for c in chunks:
-                parts.append(comp.compute_chunk(x[off : off + c]))
+                if reuse:
+                    blk[:c] = x[off : off + c]
+                    parts.append(comp.compute_chunk(blk[:c]))
+                    blk[...] = np.nan
+                else:
+                    parts.append(comp.compute_chunk(x[off : off + c]))
                 off += c
             parts.append(comp.finalize())
             st = np.concatenate(parts)
